@@ -24,6 +24,7 @@ static uint64_t pos;             /* input frames consumed so far (absolute index
 static uint64_t total_out;
 static uint64_t hash[64];
 static size_t max_ilen_set;
+static uint64_t limitN = UINT64_MAX;   /* total number of input frames of the stream (op `limit`) */
 static int is_cr;                /* constant-rate engine (plan export possible) */
 
 /* ---------- deterministic input signal: a function of (channel, absolute frame index) only */
@@ -179,26 +180,45 @@ static void print_state(void)
 }
 
 /* ---------- scripted input function */
-static char * * script; static int nscript, script_pos; static int fn_calls;
-static char reqbuf[1 << 16]; static size_t reqlen;
+static char * * script; static int nscript, script_pos, script_base; static int fn_calls;
+static char * * gscript; static int ngscript, gpos;   /* op `script`: answers consumed across calls */
 static void * fn_buf, * fn_free;
-static char usedbuf[1 << 16]; static size_t usedlen;
+/* run-length encoded logs: requests ("v*count,") and answers actually given (" tok*count") */
+typedef struct {char * s; size_t len, cap; char last[40]; size_t run; char const * pre, * post;} rle_t;
+static rle_t reqlog = {0, 0, 0, "", 0, "", ","}, usedlog = {0, 0, 0, "", 0, " ", ""};
+static void rle_flush(rle_t * r)
+{
+  if (!r->run) return;
+  if (r->len + 96 > r->cap) r->s = realloc(r->s, r->cap = r->cap * 2 + 256);
+  if (r->run == 1) r->len += (size_t)sprintf(r->s + r->len, "%s%s%s", r->pre, r->last, r->post);
+  else r->len += (size_t)sprintf(r->s + r->len, "%s%s*%zu%s", r->pre, r->last, r->run, r->post);
+  r->run = 0;
+}
+static void rle_add(rle_t * r, char const * tok)
+{
+  if (r->run && !strcmp(r->last, tok)) { ++r->run; return; }
+  rle_flush(r); strncpy(r->last, tok, sizeof(r->last) - 1); r->run = 1;
+}
+static void rle_reset(rle_t * r) { r->len = 0; r->run = 0; if (!r->s) r->s = calloc(1, r->cap = 256); r->s[0] = 0; }
+static char const * rle_str(rle_t * r) { rle_flush(r); r->s[r->len] = 0; return r->s; }
 
 static size_t input_fn(void * state, soxr_in_t * data, size_t req)
 {
-  char const * tok = script_pos < nscript? script[script_pos] : (nscript? script[nscript - 1] : "e");
+  /* per-call scripts are patterns (last answer repeats); a stream script (op `script`) ends with end-of-input */
+  char const * tok = script_pos < nscript? script[script_pos] : (nscript && script != gscript? script[nscript - 1] : "e");
   size_t n = 0;
   (void)state;
+  char tmp[40];
   ++script_pos; ++fn_calls;
-  if (reqlen < sizeof(reqbuf) - 32) reqlen += (size_t)sprintf(reqbuf + reqlen, "%zu,", req);
+  sprintf(tmp, "%zu", req); rle_add(&reqlog, tmp);
   if (fn_buf) { free_input(fn_buf, fn_free); fn_buf = 0; }
-  if (tok[0] == 'f') { *data = 0; if (usedlen < sizeof(usedbuf) - 32) usedlen += (size_t)sprintf(usedbuf + usedlen, " f"); return 0; }
-  if (tok[0] == 'd') { n = (size_t)strtoull(tok + 1, 0, 10); if (n > req) n = req; }
-  if (!n) { *data = &S; if (usedlen < sizeof(usedbuf) - 32) usedlen += (size_t)sprintf(usedbuf + usedlen, " e"); return 0; }
+  if (tok[0] == 'f') { *data = 0; rle_add(&usedlog, "f"); return 0; }
+  if (tok[0] == 'd') { n = (size_t)strtoull(tok + 1, 0, 10); if (n > req) n = req; if (n > limitN - pos) n = (size_t)(limitN - pos); }
+  if (!n) { *data = &S; rle_add(&usedlog, "e"); return 0; }
   fn_buf = make_input(n, &fn_free);
   pos += n;     /* everything supplied counts as consumed input */
   *data = fn_buf;
-  if (usedlen < sizeof(usedbuf) - 32) usedlen += (size_t)sprintf(usedbuf + usedlen, " d%zu", n);
+  sprintf(tmp, "d%zu", n); rle_add(&usedlog, tmp);
   return n;
 }
 
@@ -231,7 +251,7 @@ static void do_create(char * * t, int nt)
   rt.flags = kvu(t, nt, "rtflags", 0);
   if (S) soxr_delete(S);
   S = soxr_create(irate, orate, ch, &create_err, &io, &q, &rt);
-  pos = total_out = 0; memset(hash, 0, sizeof(hash)); max_ilen_set = 0;
+  pos = total_out = 0; memset(hash, 0, sizeof(hash)); max_ilen_set = 0; limitN = UINT64_MAX;
   if (!S) { printf("< CREATE err %s\n", create_err); return; }
   e = (char *)soxr_engine(S);
   is_cr = e[0] == 'c' && e[1] == 'r';
@@ -243,7 +263,8 @@ static void do_create(char * * t, int nt)
 static void run_process(int hasIn, int flushReq, int useIdone, size_t ilen, size_t olen, char * * scr, int nscr, int is_pull)
 {
   void * in = 0, * in_free = 0, * out; size_t idone = 0, odone = 0, direct = 0; int i; int err_before = S->error != 0;
-  script = scr; nscript = nscr; script_pos = 0; reqlen = 0; reqbuf[0] = 0; usedlen = 0; usedbuf[0] = 0;
+  script = scr; nscript = nscr; script_pos = script_base = 0; rle_reset(&reqlog); rle_reset(&usedlog);
+  if (!nscr && gscript) { script = gscript; nscript = ngscript; script_pos = script_base = gpos; }
   out = make_output(olen);
   if (is_pull) odone = soxr_output(S, out, olen);
   else {
@@ -263,14 +284,15 @@ static void run_process(int hasIn, int flushReq, int useIdone, size_t ilen, size
   if (fn_buf) { free_input(fn_buf, fn_free); fn_buf = 0; }
   if (odone <= olen) absorb_output(out, odone);
   free_output(out);
-  if (is_pull) printf("> cr.pull %zu%s", olen, usedbuf);
-  else printf("> cr.proc %d %d %d %zu %zu%s", hasIn, flushReq, useIdone, ilen, olen, usedbuf);
+  if (is_pull) printf("> cr.pull %zu%s", olen, rle_str(&usedlog));
+  else printf("> cr.proc %d %d %d %zu %zu%s", hasIn, flushReq, useIdone, ilen, olen, rle_str(&usedlog));
   /* two more answers than were needed, so that a model that wants to call again can */
   for (i = 0; i < 2; ++i) {
-    char const * tok = script_pos + i < nscript? script[script_pos + i] : (nscript? script[nscript - 1] : "e");
+    char const * tok = script_pos + i < nscript? script[script_pos + i] : (nscript && script != gscript? script[nscript - 1] : "e");
     printf(" %s", tok[0] == 'd' && !strtoull(tok + 1, 0, 10)? "e" : tok);
   }
-  printf("\n< R id=%zu od=%zu used=%d reqs=%s", idone, odone, script_pos, reqbuf);
+  printf("\n< R id=%zu od=%zu used=%d reqs=%s", idone, odone, script_pos - script_base, rle_str(&reqlog));
+  if (script == gscript) gpos = script_pos;
   print_state();
   printf("\n");
 }
@@ -293,6 +315,32 @@ int main(void)
     }
     else if (!strcmp(t[0], "proc") && nt >= 6)
       run_process(atoi(t[1]), atoi(t[2]), atoi(t[3]), (size_t)strtoull(t[4], 0, 10), (size_t)strtoull(t[5], 0, 10), t + 6, nt - 6, 0);
+    else if (!strcmp(t[0], "script")) {   /* script tok…: answers of the input function, consumed across the following calls */
+      int i; gscript = malloc(sizeof(char *) * (size_t)nt); ngscript = nt - 1; gpos = 0;
+      for (i = 1; i < nt; ++i) gscript[i - 1] = strdup(t[i]);
+    }
+    else if (!strcmp(t[0], "limit") && nt >= 2) limitN = strtoull(t[1], 0, 10);
+    else if (!strcmp(t[0], "feed") && nt >= 4) {     /* feed il ol useIdone: next block of the stream, or a flush request once it is used up */
+      size_t il = (size_t)strtoull(t[1], 0, 10), ol = (size_t)strtoull(t[2], 0, 10);
+      if (pos < limitN) { if (il > limitN - pos) il = (size_t)(limitN - pos); run_process(1, 0, atoi(t[3]), il, ol, t + 4, nt - 4, 0); }
+      else run_process(0, 0, 0, 0, ol, t + 4, nt - 4, 0);
+    }
+    else if (!strcmp(t[0], "drain") && nt >= 2) {    /* drain ol: end of input, then requests of ol frames until one returns nothing, then one more */
+      size_t ol = (size_t)strtoull(t[1], 0, 10); int guard = 0, empty = 0;
+      while (empty < 2 && guard++ < 2000000) {
+        uint64_t before = total_out;
+        run_process(0, 0, 0, 0, ol, t + 2, nt - 2, 0);
+        if (total_out == before || S->error) ++empty;
+      }
+    }
+    else if (!strcmp(t[0], "pulldrain") && nt >= 2) {  /* pulldrain ol script…: soxr_output requests of ol frames until two return nothing */
+      size_t ol = (size_t)strtoull(t[1], 0, 10); int guard = 0, empty = 0;
+      while (empty < 2 && guard++ < 2000000) {
+        uint64_t before = total_out;
+        run_process(0, 0, 0, 0, ol, t + 2, nt - 2, 1);
+        if (total_out == before || S->error) ++empty;
+      }
+    }
     else if (!strcmp(t[0], "pull") && nt >= 2)
       run_process(0, 0, 0, 0, (size_t)strtoull(t[1], 0, 10), t + 2, nt - 2, 1);
     else if (!strcmp(t[0], "delay")) {
@@ -302,6 +350,8 @@ int main(void)
     }
     else if (!strcmp(t[0], "clear")) {
       soxr_error_t e = soxr_clear(S);
+      /* recipes without RESET_ON_CLEAR (the libsamplerate presets) are re-initialised by the next set_io_ratio, as soxr-lsr.c does */
+      if (!e && !S->resamplers) e = soxr_set_io_ratio(S, irate / orate, 0);
       S->seed = 1; pos = total_out = 0; memset(hash, 0, sizeof(hash));
       printf("> cr.clear\n< ok clear\n");
       if (e) printf("E clear %s\n", e);
